@@ -175,7 +175,8 @@ CHECKS = {
                 'final quiescence every gauge of the stack must be 0, no gauge may ever go negative, counters future_total / future_cancel / future_error of the user-visible future type, poll_total / '
                 'poll_error and exec_total must equal the observed events; non-trivial = a cancel or a failing first attempt'},
     "C12": {
-        "extra_props": ["Props/C12_src.v"],
+        "extra_props": ["Props/C12_src.v", "Props/C12_keep_throttle.v", "Props/C12_keep_timeout.v", "Props/C12_keep_poll.v", "Props/C12_keep_cos.v",
+                        "Props/C12_keep_mapfut.v", "Props/C12_keep_comb.v"],
         "modules": ["p_c12", "p_c12w"],
         "rule": "p_c12w: the drop scenarios of p_c12 with the four worker loops in lockstep with Model/Refs.v: every executor_ref() of the loop with its result, whether a library frame "
                 "of the loop still holds the executor when it goes to wait, every set / wait / wake-up / time-out / clear of the loop's event and the finalisation of the executor "
